@@ -1533,9 +1533,9 @@ impl<'a, 'b, W: Write> Serializer for &'a mut YamlSerializer<'b, W> {
     fn serialize_seq(self, _len: Option<usize>) -> Result<Self::SerializeSeq> {
         let flow = self.take_flow_for_seq();
         if flow {
-            self.write_scalar_prefix_if_anchor()?;
             // Ensure a space after a preceding colon when this sequence is a mapping value.
             self.write_space_if_pending()?;
+            self.write_scalar_prefix_if_anchor()?;
             if self.at_line_start {
                 self.write_indent(self.depth)?;
             }
@@ -1736,9 +1736,9 @@ impl<'a, 'b, W: Write> Serializer for &'a mut YamlSerializer<'b, W> {
     fn serialize_map(self, _len: Option<usize>) -> Result<Self::SerializeMap> {
         let flow = self.take_flow_for_map();
         if flow {
-            self.write_scalar_prefix_if_anchor()?;
             // Ensure a space after a preceding colon when this mapping is a value.
             self.write_space_if_pending()?;
+            self.write_scalar_prefix_if_anchor()?;
             if self.at_line_start {
                 self.write_indent(self.depth)?;
             }
